@@ -10,6 +10,11 @@ import (
 
 // Environment models: sync, time, context. All are part of the claim of every check that reaches them.
 
+// timerState: active = armed; fired = the timer went off; a fired timer holds one undelivered value until it is received.
+type timerState struct {
+	active, fired, pending bool
+}
+
 func registerEnvStubs() {
 	lock := func(x *Exec, f *Closure, a []Value, cc *ssa.CallCommon) Value {
 		c := a[0].(Ptr).C
@@ -138,20 +143,47 @@ func registerEnvStubs() {
 	}
 	stubs["context.WithTimeout"] = derived
 	stubs["context.WithDeadline"] = derived
+	// timers: a timer channel delivers one value per firing; it fires when the harness lets time pass while it is
+	// active. Stop/Reset have the documented return values.
+	newTimer := func(x *Exec) *ChanV {
+		ch := &ChanV{Kind: "timer", Tag: &timerState{active: true}}
+		x.timerChans = append(x.timerChans, ch)
+		return ch
+	}
 	stubs["time.NewTimer"] = func(x *Exec, f *Closure, a []Value, cc *ssa.CallCommon) Value {
 		tt := f.Fn.Signature.Results().At(0).Type().(*types.Pointer).Elem()
 		cell := x.newCell(tt)
-		ch := &ChanV{Kind: "timer"}
-		x.timerChans = append(x.timerChans, ch)
-		cell.Kids[0].V = ch
+		cell.Kids[0].V = newTimer(x)
 		return Ptr{C: cell}
 	}
-	stubs["(*time.Timer).Stop"] = func(x *Exec, f *Closure, a []Value, cc *ssa.CallCommon) Value { return x.ctx.False() }
-	stubs["(*time.Timer).Reset"] = func(x *Exec, f *Closure, a []Value, cc *ssa.CallCommon) Value { return x.ctx.False() }
+	timerOf := func(x *Exec, v Value) (*ChanV, *timerState) {
+		p := v.(Ptr)
+		if p.C == nil {
+			x.goPanic("nil pointer dereference (*time.Timer)", nil)
+		}
+		ch, _ := p.C.Kids[0].V.(*ChanV)
+		if ch == nil {
+			x.goPanic("time: Stop/Reset called on uninitialized Timer", nil)
+		}
+		st, _ := ch.Tag.(*timerState)
+		if st == nil {
+			x.unsupported("timer without state")
+		}
+		return ch, st
+	}
+	stubs["(*time.Timer).Stop"] = func(x *Exec, f *Closure, a []Value, cc *ssa.CallCommon) Value {
+		_, st := timerOf(x, a[0])
+		was := st.active && !st.fired
+		st.active = false
+		return x.ctx.BoolC(was)
+	}
+	stubs["(*time.Timer).Reset"] = func(x *Exec, f *Closure, a []Value, cc *ssa.CallCommon) Value {
+		_, st := timerOf(x, a[0])
+		was := st.active && !st.fired
+		st.active, st.fired = true, false
+		return x.ctx.BoolC(was)
+	}
 	stubs["time.After"] = func(x *Exec, f *Closure, a []Value, cc *ssa.CallCommon) Value {
-		ch := &ChanV{Kind: "timer"}
-		x.timerChans = append(x.timerChans, ch)
-		x.timerDur = append(x.timerDur, a[0].(*term.Term))
-		return ch
+		return newTimer(x)
 	}
 }
